@@ -116,7 +116,9 @@ func c01FieldDefs(c *lib.Ctx, idx uint64) {
 	pair := c01Pairs(c.Tier)[idx]
 	// Prefix: 14-byte header, file_id definition (type field only) and data (activity).
 	buf := make([]byte, 0, 1200)
-	buf = append(buf, 14, 0x20, 0x43, 0x08, 0, 0, 0, 0, '.', 'F', 'I', 'T', 0, 0)
+	// the header's profile version varies with the pair: older than, equal to and newer than the library's own
+	pv := []uint16{2115, 21158, 2216, 100}[idx%4]
+	buf = append(buf, 14, 0x20, byte(pv), byte(pv>>8), 0, 0, 0, 0, '.', 'F', 'I', 'T', 0, 0)
 	buf = append(buf, 0x40, 0, 0, 0, 0, 1, 0, 1, 0) // def local 0: file_id, one field (0, size 1, enum)
 	buf = append(buf, 0x00, 4)                      // data: type = activity
 	prefix := len(buf)
